@@ -120,11 +120,15 @@ class SStr(Sym):
 
 
 class SOpaque(Sym):
-    """value of an uninterpreted sort (e.g. one event payload)"""
-    __slots__ = ("e",)
+    """value of an uninterpreted sort (e.g. one event payload, one text line);
+    ``pytype`` optionally records the Python type the value stands for"""
+    __slots__ = ("e", "pytype", "shape", "dtype")
 
-    def __init__(self, e):
+    def __init__(self, e, pytype=None):
         self.e = e
+        self.pytype = pytype
+        self.shape = None
+        self.dtype = None
 
     def __repr__(self):
         return f"SOpaque({self.e})"
@@ -325,6 +329,17 @@ class SBytes(Sym):
 _arr_ids = itertools.count()
 
 
+def arr_elem(arr, k):
+    """wrapped element k of an SArr (keeps the element's python type tag)"""
+    v = wrap(arr.sel(k))
+    if isinstance(v, SOpaque):
+        v.pytype = getattr(arr, "elem_pytype", None)
+        if getattr(arr, "item_shape", None):
+            v.shape = tuple(arr.item_shape)
+        v.dtype = arr.dtype
+    return v
+
+
 class SArr(Sym):
     """Symbolic 1-D array: length ``n`` (z3 Int) and contents ``a`` (z3 array
     Int -> sort_of(kind)).  Mutable like a numpy array (the engine re-executes
@@ -344,6 +359,7 @@ class SArr(Sym):
         self.writeable = writeable
         self.name = name
         self.uid = next(_arr_ids)
+        self.birth = None
 
     # contents --------------------------------------------------------------
     @property
